@@ -102,8 +102,18 @@ class Sym:
 
     conj = conjugate
 
-    def item(self):
+    def item(self, *a):
         return self
+
+    def ravel(self):
+        out = np.empty(1, dtype=object)
+        out[0] = self
+        return out
+
+    flatten = ravel
+
+    def reshape(self, *shape):
+        return self.ravel().reshape(*shape)
 
     # numpy-scalar look-alikes
     ndim = 0
